@@ -42,6 +42,7 @@ func TestC05(t *testing.T) {
 			}
 			return true
 		}
+		longTail := []byte(`, "next": [1, 2, 3], "and": {"more": "data"}, "padding": "xxxxxxxxxxxxxxxxxxxxxxxxxxxxxxxxxxxxxxxxxxxxxxxxxxxxxxxxxxxxxxxxxxxxxxxxxxxxxxx"}`)
 		// 1. complete windows round every type bound and digit-count switch-over
 		W := int64(e.cfg.Pick(400, 60000))
 		bounds := []string{"0", "2147483648", "4294967296", "9223372036854775808", "18446744073709551616",
@@ -66,6 +67,13 @@ func TestC05(t *testing.T) {
 							if !run("window", buf) {
 								break win
 							}
+							// the same literal as the first token of a longer input (readers that switch
+							// to a windowed / word-at-a-time path when enough bytes remain)
+							buf = append(buf, longTail...)
+							if !run("window.longtail", buf) {
+								break win
+							}
+							buf = buf[:len(buf)-len(longTail)]
 							if k%97 == 0 {
 								plain := append([]byte(nil), buf...)
 								for _, form := range [][2]string{{" ", ""}, {"\t\n", " "}, {"   ", ""}, {"        ", ""}, {"\n\n\n\n\n\n\n\n\n\n\n\n\n", ""}, {"                 ", ""}, {"                  ", ""}, {"                   ", ","}, {"                                ", ""}, {"0", ""}, {"", "0"}, {"", ".0"}, {"", "e0"}, {"", "."}, {"", "E"},
